@@ -24,6 +24,7 @@ use scylla_cql::frame::response::{
 };
 use scylla_cql::frame::{Compression, parse_response_body_extensions, read_response_frame};
 use scylla_cql_core::deserialize::row::ColumnIterator;
+use scylla_cql_core::value::Row;
 use std::alloc::{GlobalAlloc, Layout, System};
 use std::cell::Cell;
 use std::fmt::Write as _;
@@ -33,6 +34,7 @@ use vh::*;
 // ------------------------------------------------------------------ counting allocator
 struct Counting;
 thread_local! {
+    static TV: Cell<String> = const { Cell::new(String::new()) };
     static MAXREQ: Cell<usize> = const { Cell::new(0) };
     static TOTAL: Cell<usize> = const { Cell::new(0) };
 }
@@ -272,6 +274,22 @@ fn r_result(r: &ResultWithDeserializedMetadata) -> Result<String, String> {
                     out_rows.push(format!("[{}]", cells.join(",")));
                 }
             }
+            // typed deserialisation of the same rows: rows_iter::<Row>() until the first error
+            if !md.col_specs().is_empty() {
+                let mut tv = "ok".to_string();
+                match rows.rows_iter::<Row>() {
+                    Err(_) => tv = "typecheck".to_string(),
+                    Ok(it) => {
+                        for (i, row) in it.enumerate() {
+                            if row.is_err() {
+                                tv = format!("err@{}", i);
+                                break;
+                            }
+                        }
+                    }
+                }
+                TV.with(|t| t.set(tv));
+            }
             format!(
                 "Rows({},{},{},{},{},[{}])",
                 opt(ps, |v| hx(&v)),
@@ -418,6 +436,8 @@ fn decode(cfg: &Cfg, frame: &[u8]) -> String {
             return format!("err ext {}", c);
         }
     };
+    let ext_payload = ext.custom_payload.clone();
+    TV.with(|t| t.set("-".to_string()));
     let head = format!(
         "F({},{},{},{},{},{},{},",
         params.version,
@@ -481,7 +501,19 @@ fn decode(cfg: &Cfg, frame: &[u8]) -> String {
             RM::AuthSuccess(a) => format!("AuthSuccess({})", opt(a.success_message.as_ref(), |v| hx(v))),
         }
     };
-    format!("ok {}{})", head, resp)
+    // the tablet routing entry of the custom payload (hook H6: RawTablet::from_custom_payload)
+    let tb = match &ext_payload {
+        None => "-".to_string(),
+        Some(p) => {
+            let mut vt = scylla::routing::locator::verif_tablets::VerifTablets::new();
+            match vt.learn_from_payload("ks", "t", p, &std::collections::HashMap::new()) {
+                None => "none".to_string(),
+                Some(Err(c)) => format!("err:{}", c),
+                Some(Ok(n)) => format!("ok:{}", n),
+            }
+        }
+    };
+    format!("ok {}{}) tv={} tb={}", head, resp, TV.with(|t| t.take()), tb)
 }
 
 /// what the negotiated codec makes of the body (the model treats the codec as an oracle)
@@ -504,6 +536,25 @@ fn run_case(case: &str) -> String {
     let f: Vec<&str> = case.split_whitespace().collect();
     if f.len() != 4 {
         return "error bad-case".into();
+    }
+    // self-test kinds (replay only, never generated): the watchdog must attribute each to its input
+    match f[0] {
+        "Xabort" => std::process::abort(),
+        "Xhang" => loop {
+            std::thread::sleep(std::time::Duration::from_secs(1));
+        },
+        "Xstack" => {
+            fn deep(n: u64) -> u64 {
+                let a = [n; 64];
+                if n == 0 { 0 } else { deep(n - 1) + std::hint::black_box(a)[7] }
+            }
+            return format!("ok {} m=0 t=0", deep(std::hint::black_box(10_000_000)));
+        }
+        "Xalloc" => {
+            let v: Vec<u8> = Vec::with_capacity(std::hint::black_box(1usize << 42));
+            return format!("ok {} m=0 t=0", v.capacity());
+        }
+        _ => {}
     }
     let cfg = parse_cfg(f[1], f[2]);
     let frame = unhex(f[3]);
@@ -560,7 +611,9 @@ fn run_in_children(cases: &[String], infile: &str, per_input_timeout_s: u64, wor
             let mut next = lo;
             while next < hi {
                 // address-space limit: an out-of-proportion allocation fails fast in the child
-                let cmd = format!("ulimit -v 4194304; exec '{}' --child '{}' {} {}", exe.display(), infile, next, hi);
+                // (8 GiB: a Snappy body may legitimately announce up to 4 GiB, which the snap crate
+                // reserves untouched; everything the property judges is far below or far above)
+                let cmd = format!("ulimit -v 8388608; exec '{}' --child '{}' {} {}", exe.display(), infile, next, hi);
                 let mut ch = std::process::Command::new("sh")
                     .arg("-c")
                     .arg(&cmd)
@@ -735,6 +788,35 @@ fn known_reproducers() -> Vec<String> {
         }
         ty.extend_from_slice(&custom_ty(&format!("{}Int32Type{}", "ListType(".repeat(127), ")".repeat(127))));
         add("2n", rows_with_type(&ty));
+    }
+    // values nested as deep as the two type-nesting limits allow (128 binary levels + a custom string
+    // of 120 levels): typed deserialisation recurses 249 levels on the 2 MiB stack
+    {
+        let mut ty = vec![];
+        for _ in 0..128 {
+            ty.extend_from_slice(&be16(0x20));
+        }
+        ty.extend_from_slice(&custom_ty(&format!("{}Int32Type{}", "ListType(".repeat(120), ")".repeat(120))));
+        let mut v: Vec<u8> = vec![0, 0, 0, 7];
+        for _ in 0..248 {
+            let mut w = be32(1).to_vec();
+            w.extend_from_slice(&be32(v.len() as i32));
+            w.extend_from_slice(&v);
+            v = w;
+        }
+        let mut f = rows_with_type(&ty);
+        let n = f.len();
+        f[n - 4..].copy_from_slice(&be32(1)); // one row
+        f.extend_from_slice(&be32(v.len() as i32));
+        f.extend_from_slice(&v);
+        let l = (f.len() - 9) as u32;
+        f[5..9].copy_from_slice(&l.to_be_bytes());
+        add("2n", f.clone());
+        // the same with the innermost element cut off
+        let mut g = f[..f.len() - 2].to_vec();
+        let l = (g.len() - 9) as u32;
+        g[5..9].copy_from_slice(&l.to_be_bytes());
+        add("2n", g);
     }
     // lz4 body claiming 4 GiB / 1 GiB of output
     for claimed in [0xFFFF_FFFFu32, 0x4000_0000, 3000] {
